@@ -150,4 +150,14 @@ CHECKS["C04"] = {
             "Object key order is not compared (a C01 matter).",
     "design_ref": "DESIGN.md §4 C04",
 }
+CHECKS["C03"] = {
+    "technique": "Lean 4 proof over M-Erase (erasure removes all static syntax, fixes plain programs, is a projection; all annotation variants share one meaning) + translator: the parser's type-node kinds regenerated from /repo/src/ast.rs and discharged by decide + bytecode identity and outcome identity of decorated vs model-erased programs through the real parser and compiler",
+    "text": "strip_plain / strip_of_plain / strip_idem / variant_strip / variants_agree are Lean theorems over the model's program and type grammar (every decoration position x every type form); kinds_covered ties the grammar to enum TypeAnnotation of the "
+            "current source. The model's executable generator draws decorated programs from that grammar; for each, the decorated text and the model's erased text are compiled by the real parser+compiler - the bytecode of every chunk must be "
+            "identical (types generate no code and shift no neighbouring parse) - and run - outcomes must be identical; a hand corpus covers '<T>(x)' beside comparison chains, literal type arguments, 'as' in templates, '!' before '.'/'[', "
+            "overloads, modifiers, declare/ambient forms and type-only imports/exports.",
+    "note": "The erasure is verified in the model; that tsrun's parser+compiler implement it is compared per generated program (bytecode identity is stronger than sampling inputs for that program, but programs are sampled). "
+            "Decorators and JSX are outside the model.",
+    "design_ref": "DESIGN.md §4 C03",
+}
 NOT_YET = {}
